@@ -1,4 +1,5 @@
-import bisect, itertools, re
+import bisect, itertools, math, os, re, time
+import vf
 from vf import Check, Stream, first_diff
 
 
@@ -452,6 +453,117 @@ def drain_case(rng, multi, N, pattern, how):
     return g.ops
 
 
+
+def avl_shape(h, rng, p_full, lean):
+    """A random AVL shape of height h as nested pairs (left, right), None = empty.  p_full = 0 gives the sparsest
+    trees (Fibonacci trees: every node's subtrees differ by one level); lean = 'l' / 'r' / 'x' puts the deeper
+    subtree always left / always right / on a random side (a zigzag path needs double rotations)."""
+    if h <= 0:
+        return None
+    if h == 1:
+        return (None, None)
+    if rng.random() < p_full:
+        return (avl_shape(h - 1, rng, p_full, lean), avl_shape(h - 1, rng, p_full, lean))
+    left_deep = lean == 'l' or (lean == 'x' and rng.random() < 0.5)
+    a, b = avl_shape(h - 1, rng, p_full, lean), avl_shape(h - 2, rng, p_full, lean)
+    return (a, b) if left_deep else (b, a)
+
+
+def shape_size(t):
+    return 0 if t is None else 1 + shape_size(t[0]) + shape_size(t[1])
+
+
+def shape_height(t):
+    return 0 if t is None else 1 + max(shape_height(t[0]), shape_height(t[1]))
+
+
+def shape_level_order(t, step=3):
+    """keys (in-order rank * step + step) of the shape in level order: inserting them in this order builds exactly
+    this shape without a single rotation (every prefix is an AVL tree), plus [(key, depth, is_leaf, lightness)]"""
+    info = []
+    def walk(t, lo, depth, light):
+        if t is None:
+            return
+        nl = shape_size(t[0])
+        key = (lo + nl) * step + step
+        hl, hr = shape_height(t[0]), shape_height(t[1])
+        info.append((depth, key, t[0] is None and t[1] is None, light))
+        walk(t[0], lo, depth + 1, light + (1 if hl < hr else 0))
+        walk(t[1], lo + nl + 1, depth + 1, light + (1 if hr < hl else 0))
+    walk(t, 0, 0, 0)
+    info.sort()
+    return [k for (_, k, _, _) in info], info
+
+
+def sparse_case(rng, multi, h, p_full, lean, length, mode):
+    """Build a sparsest (or nearly sparsest) AVL tree of height h - where alone the depth bound is tight - and then
+    remove / insert where re-balancing is triggered: a leaf on the shallow side of a node shortens the shallow side,
+    the node's slope reaches +-2 and the kind of rotation depends on the slope of its deep child (same sign: single,
+    opposite sign: double, 0: the case only a removal can produce); in a Fibonacci tree the rotations cascade to the
+    root.  Finds of every key and of two absent keys at check points; depth and comparison count are the oracle."""
+    g = Gen(rng, multi, 10 ** 6)
+    t = avl_shape(h, rng, p_full, lean)
+    order, info = shape_level_order(t)
+    for k in order:
+        g.ins(k)
+    top = max(order) + 3
+    def probe():
+        g.find_all()
+        g.ops.append('find -1')
+        g.ops.append('find %d' % (top + 1000))
+    probe()
+    leaves = [(light, -depth, k) for (depth, k, leaf, light) in info if leaf]
+    # shallow-side leaves first: the leaf with the most "lighter side" turns above it, then the shallowest
+    leaves.sort(reverse=True)
+    targets = [k for (_, _, k) in leaves]
+    n_ops = 0
+    while n_ops < length and g.s.keys:
+        r = rng.random()
+        ks = g.s.keys
+        if mode == 'shallow' and targets and r < 0.6:
+            k = targets.pop(0)
+            if g.s.has(k):
+                g.remk(k) if rng.random() < 0.5 else g.remi(bisect.bisect_left(ks, k))
+        elif r < (0.75 if mode != 'churn' else 0.5):
+            k = rng.choice(ks)
+            q = rng.random()
+            if q < 0.5:
+                g.remk(k)
+            elif q < 0.9:
+                g.remi(bisect.bisect_left(ks, k))
+            elif q < 0.95:
+                g.remf()
+            else:
+                g.remb()
+        else:
+            k = rng.choice(ks) + rng.choice([-1, 1, -2, 2]) if rng.random() < 0.8 else rng.randrange(top)
+            if rng.random() < 0.8:
+                g.ins(k)
+            else:
+                g.hint(g.good_hint(k), k)
+        n_ops += 1
+        if n_ops % 6 == 0:
+            g.ops.append('find -1')
+            g.ops.append('find %d' % (top + 1000))
+        if n_ops % 15 == 0:
+            probe()
+    probe()
+    return g.ops
+
+
+def sparse_cases(rng, thorough):
+    cases = []
+    for multi in (False, True):
+        for h in ((3, 4, 5, 6, 7, 8, 9) if thorough else (4, 5, 6, 7)):
+            for lean in ('l', 'r', 'x'):
+                for p_full in (0.0, 0.2):
+                    for mode in ('shallow', 'random', 'churn'):
+                        for _ in range(3 if thorough else 1):
+                            n = shape_size(avl_shape(h, rng, 0.0, 'l'))
+                            cases.append(sparse_case(rng, multi, h, p_full, lean, min(60, max(6, n)), mode))
+    return cases
+
+
 def tree_depth(tokens):
     """real depth of the tree printed in preorder (`.` = empty)"""
     pos = 0
@@ -482,7 +594,7 @@ class C01(Check):
     extracted = ['coq/Avl/model.mli', 'coq/Avl/model.ml', 'ocaml/zconv.ml', 'ocaml/avl_driver.ml']
     harness_sources = ['harness/avl.cpp']
     per_case_timeout = 5
-    level_text = ('Theorems in Coq (coq/Avl, 31 in Properties_C01.v), for every history of insert (plain and hinted), remove by key / '
+    level_text = ('Theorems in Coq (coq/Avl, 33 in Properties_C01.v), for every history of insert (plain and hinted), remove by key / '
                   'iterator, removeFront/removeBack, clear, copy construction / operator= / self-assignment (Map and MultiMap), '
                   'Map::insert(other), find/contains/count/front/back on two containers. NODE LEVEL: '
                   'the AVL invariant of the model (stored height = real height, sibling heights differ by at most 1, in-order sequence '
@@ -490,8 +602,11 @@ class C01(Check):
                   'by every operation; every operation refines the reference sorted (multi)map (contents, size, find/contains, count, '
                   'front/back, returned iterator; a plain MultiMap insert lands after all keys <= k; a copy holds the source\'s keys and '
                   'values in the source\'s order - runs of equal keys of a MultiMap included - as new entries and leaves the source '
-                  'untouched; remove(key) removes exactly the first entry of the run of equal keys; the position a hinted MultiMap '
-                  'insert chooses passes the reference\'s order test in every reachable state, so the reference never rejects); find makes at most 2*floor(1.4405*log2(n+2)) comparisons (integer '
+                  'untouched; MultiMap::remove(key): the reference takes the rank of the removed entry as an input and accepts every entry that '
+                  'holds the key - exactly that entry goes, the count of the key drops by one, nothing else changes - and rejects a rank without the key '
+                  'or a remove that takes nothing although the key is present (reference_remove_key_accepts_any_entry_of_the_run); the MODEL removes '
+                  'the first entry of the run, and that rank and the position a hinted MultiMap insert chooses pass the reference\'s tests in every '
+                  'reachable state, so the reference never rejects); find makes at most 2*floor(1.4405*log2(n+2)) comparisons (integer '
                   'form without axioms via fib(h+2) <= n+1 and 1.61803^121 >= 2^84; real-number form with ln/Int_part). '
                   'POINTER LEVEL (AvlHeap*.v): a machine on a heap of Items (slot -> key, value, parent, left, right, height, slope, prev, next) '
                   'plus root, _begin, endItem.prev, _size performs the individual field writes of the C++ in the C++\'s order: '
@@ -511,8 +626,12 @@ class C01(Check):
                   'the ASan/UBSan build of the working tree on the same histories: results, iteration, tree shape with stored heights and, '
                   'slot by slot, the raw fields key/value/parent/left/right/height/slope/prev/next of every live Item plus root, _begin, '
                   'endItem.prev, _size (read through an access override) are compared after every operation (of both containers after '
-                  'copy / assignment / insert(other)), plus the comparison counter of every find; the const overloads of front/back and '
-                  'of the iterator ++/--/*/-> are cross-checked against the non-const ones.')
+                  'copy / assignment / insert(other)), plus the comparison counter of every find; for every iterator an operation returns, every accessor of the Iterator class - key(), '
+                  'operator* and operator-> (const and non-const overload each), ++ and -- (in place and as const members), == and != - is compared '
+                  'with the raw Item it designates (key/value addresses, next/prev), and the const overloads of front/back with the non-const ones. '
+                  'The real depth of the Item tree after every operation and the comparison count of every find are judged against the bound; '
+                  'when the Item fields differ from the model although results and contents agree, an adversarial search (3 explorers, archive '
+                  'of histories by entries/depth/imbalance, started from sparsest trees) looks for a history that breaks the bound.')
     level_note = ('The theorems are about the models; the tie to the code is differential. Since round 3 the pointer level is proved, '
                   'not only compared: the cell machine (field writes in the code\'s order, early exits included) refines the node-level '
                   'model for all histories, and the node-level model refines the reference. Still validated by correspondence only: '
@@ -528,18 +647,23 @@ class C01(Check):
                   'the source\'s entries in iteration order, Map::insert(other) as plain + hinted inserts, as the code does; MultiMap '
                   'has no insert(other) (the op is a no-op there); insert(other) of a Map into itself is not driven. The new entries '
                   'of a copy are numbered by the harness in iteration order (the values, which differ inside every generated run of '
-                  'equal keys, show the order of a run). Choices where the property text is silent: MultiMap::remove(key) removes one '
-                  'entry, the first of the run of equal keys (theorem remove_key_removes_first_of_run), as the code does; the place of '
-                  'a hinted MultiMap insert inside a run of equal keys is an input of the reference, which only checks that the order '
-                  'is kept. find_cost_logarithmic_real depends on the axioms of Coq\'s classical real numbers; the other 30 theorems are '
-                  'closed under the global context. Trusted: Coq kernel, AvlSpec.v as the reading of the property text, extraction, '
+                  'equal keys, show the order of a run). Where the property text is silent the reference is relational (round 5 for remove): '
+                  'which entry of a run of equal keys MultiMap::remove(key) takes, and the place of a hinted MultiMap insert inside a run '
+                  'of equal keys, are inputs of the reference, which checks them (an entry holding the key / the order is kept); the harness '
+                  'observes which Item disappeared instead of assuming it. That the code takes the FIRST entry of the run is a theorem about '
+                  'the model only (remove_key_removes_first_of_run): a change of that choice is a model/implementation difference '
+                  '(no-failing-input-found), not a property failure. That remove(key) takes exactly one entry (not all equal keys) remains '
+                  'the reading of the text adopted since round 2; find(key) on a run answers its first entry in the reference (an STL '
+                  'lower_bound-style reference; the text does not say more). find_cost_logarithmic_real depends on the axioms of Coq\'s classical real numbers; the other 32 theorems are '
+                  'closed under the global context. The depth search is a search, not a proof: it found the two audit edits (double rotation on a '
+                  'slope-0 child) within 4..90 s in every trial, but a slip that needs a rarer history can still end as no-failing-input-found. Trusted: Coq kernel, AvlSpec.v as the reading of the property text, extraction, '
                   'OCaml driver (it re-tabulates the extracted heap closures after every operation), harness, comparison-counting key type.')
     technique = 'Coq proof about two executable Gallina models (node level: invariant + refinement + cost bound; pointer level: cell machine refines the node level via a representation relation); extracted models and reference run against the sanitizer build of the code on generated histories, raw Item fields compared'
     rule = ('cases = operation histories on two Map or two MultiMap objects: boundary (empty, single entry, key 0, negatives, '
             'equal keys, copy/assign/self-assign over empty and non-empty targets), build profiles (ascending/descending/zigzag/'
             'random/internal two-child removals/hinted/copy+assign+self-assign (both flavours, MultiMap sources with runs of equal '
             'keys built by plain and hinted inserts) and insert(other) (Map)/equal-key runs) over key ranges 4..200 and lengths 3..300, a small exhaustive scope of {reset op} x {hint position} x {key vs old '
-            'extremes} (448 cases quick, 908 thorough), every tree shape of 5 (quick) / 4..6 (thorough) keys x every removal rank followed by plain/hinted inserts and removals, and fill-then-drain histories (one side, all but powers of two, repeated median/quartile removals) up to 60 (quick) / 255 (thorough) entries; oracles: reference results line by line (hinted MultiMap positions checked relationally), comparison count and real tree depth against 2*floor(1.4405*log2(n+2)); a case is '
+            'extremes} (448 cases quick, 908 thorough), every tree shape of 5 (quick) / 4..6 (thorough) keys x every removal rank followed by plain/hinted inserts and removals, fill-then-drain histories (one side, all but powers of two, repeated median/quartile removals) up to 60 (quick) / 255 (thorough) entries, and sparsest AVL trees (Fibonacci trees of height 4..7 quick / 3..9 thorough, deeper side left / right / random, optionally with a few complete subtrees) built in level order without a rotation and then thinned from the shallow side, at random, or churned with inserts next to existing keys (144 quick / 756 thorough); after a model/implementation difference in the Item fields an adversarial depth search (150 s quick / 420 s thorough, implementation alone) runs; the harness is restarted at most 150 times (30 watchdog timeouts) per run; oracles: reference results line by line (hinted MultiMap positions and the entry MultiMap::remove(key) takes checked relationally), iterator accessors against the raw Item, comparison count and real tree depth against 2*floor(1.4405*log2(n+2)); a case is '
             'non-trivial when it has at least 3 mutating operations and reaches at least 3 entries; distinct = distinct op text')
     assumptions = ['keys and values are int (the code is a template; the harness instantiates a comparison-counting int key)',
                    'the allocator succeeds (no out-of-memory path is modelled)',
@@ -557,12 +681,35 @@ class C01(Check):
                     pass
         return muts >= 3 and mx >= 3
 
+    @staticmethod
+    def entries(line):
+        """entries of the public state section of an observation line (None when hashed / missing)"""
+        p = line.split(' | ')
+        if len(p) < 2:
+            return None
+        t = p[1].split(' ')
+        if len(t) != 3 or t[2].startswith('#'):
+            return None
+        return [] if t[2] == '-' else t[2].split(',')
+
+    @staticmethod
+    def removed_rank(before, after):
+        """rank of the one entry of `before` that is missing in `after` (everything else in place), else None"""
+        if before is None or after is None or len(before) != len(after) + 1:
+            return None
+        r = 0
+        while r < len(after) and before[r] == after[r]:
+            r += 1
+        return r if before[r + 1:] == after[r:] else None
+
     def relational(self, cases, impl_obs, spec_obs):
-        """The place a hinted MultiMap insert takes inside a run of equal keys is not fixed by the
-        property (it depends on the tree shape).  The reference takes that position as an input and
-        checks it.  Where the implementation chose another position than the model, re-run the
-        reference with the implementation's choice (`hintc p k v r`): a position that breaks the
-        order is rejected (`!bad-choice`), a legitimate one is followed from then on."""
+        """Two decisions of a MultiMap are not fixed by the property text: the place a hinted insert takes inside a
+        run of equal keys (it depends on the tree shape) and which entry of a run of equal keys remove(key) takes.
+        The reference takes the decision as an input and checks it.  Where the implementation decided otherwise
+        than the model, re-run the reference with the implementation's decision (`hintc p k v r` / `remkc k r`,
+        r = the rank the implementation's observations show): a position that breaks the order, a rank that does
+        not hold the key, or a remove that took nothing or several entries is rejected (`!bad-choice` / the plain
+        mismatch stays), a legitimate decision is followed from then on."""
         spec_obs = [list(s) for s in spec_obs]
         cur = [list(c) for c in cases]
         pending = list(range(len(cases)))
@@ -577,10 +724,19 @@ class C01(Check):
                 if k is None or k >= len(ops) or k >= len(impl_obs[i]):
                     continue
                 t = ops[k].split()
-                m = re.match(r'^@(\d+):', impl_obs[i][k])
-                if t[0] not in ('hint', 'hintc') or not m or (t[0] == 'hintc' and t[4] == m.group(1)):
+                if t[0] in ('hint', 'hintc'):
+                    m = re.match(r'^@(\d+):', impl_obs[i][k])
+                    if not m or (t[0] == 'hintc' and t[4] == m.group(1)):
+                        continue
+                    ops[k] = 'hintc %s %s %s %s' % (t[1], t[2], t[3], m.group(1))
+                elif t[0] in ('remk', 'remkc'):
+                    before = self.entries(impl_obs[i][k - 1]) if k > 0 else []
+                    r = self.removed_rank(before, self.entries(impl_obs[i][k]))
+                    if r is None or (t[0] == 'remkc' and t[2] == str(r)):
+                        continue
+                    ops[k] = 'remkc %s %d' % (t[1], r)
+                else:
                     continue
-                ops[k] = 'hintc %s %s %s %s' % (t[1], t[2], t[3], m.group(1))
                 cur[i] = [c[0]] + ops
                 redo.append(i)
             if not redo:
@@ -591,31 +747,274 @@ class C01(Check):
             pending = redo
         return spec_obs
 
+    @staticmethod
+    def cost_fail(obs):
+        """the cost clause on one case: (line index, reason) of the first find / tree that exceeds the bound"""
+        for k, l in enumerate(obs):
+            m = re.match(r'^\S+ c=(\d+) \| (\d+) ', l)
+            if m:
+                n = int(m.group(2))
+                if int(m.group(1)) > bound(n):
+                    return k, 'find made %s key comparisons among %s entries, bound is %d' % (m.group(1), n, bound(n))
+            # "logarithmically deep": the real depth of the Item tree after EVERY operation (read from the L-int dump,
+            # not from the stored height fields) obeys the same bound (theorem height_logarithmic)
+            secs = l.split(' | ')
+            if len(secs) >= 3 and not secs[2].startswith('#'):
+                try:
+                    n = int(secs[1].split(' ')[0])
+                except ValueError:
+                    continue
+                d = tree_depth(secs[2].split(' ')[0].split(','))
+                if 2 * d > bound(n):
+                    return k, 'tree of %d entries is %d levels deep, bound is %d' % (n, d, bound(n) // 2)
+        return None
+
     def judge(self, cases, impl_obs, spec_obs):
         spec_obs = self.relational(cases, impl_obs, spec_obs)
         fails = Check.judge(self, cases, impl_obs, spec_obs)
         seen = {i for (i, _, _) in fails}
-        # the cost clause: comparisons of a find <= 2*floor(1.4405*log2(n+2))
+        # the cost clause: comparisons of a find <= 2*floor(1.4405*log2(n+2)), depth of the tree <= half of it
         for i, obs in enumerate(impl_obs):
             if i in seen:
                 continue
-            for k, l in enumerate(obs):
-                m = re.match(r'^\S+ c=(\d+) \| (\d+) ', l)
-                if not m:
+            cf = self.cost_fail(obs)
+            if cf:
+                fails.append((i, cf[0], cf[1]))
+        # remember for extra_checks: did a stream show implementation != model although the property oracle is content?
+        lm = self._last_model
+        if lm is not None and lm[0] is cases and len(lm[1]) == len(cases):
+            failing = {i for (i, _, _) in fails}
+            for i, c in enumerate(cases):
+                if i in failing:
                     continue
-                n = int(m.group(2))
-                if int(m.group(1)) > bound(n):
-                    fails.append((i, k, 'find made %s key comparisons among %s entries, bound is %d' % (m.group(1), n, bound(n))))
-                    break
-                # "logarithmically deep": the real depth of the Item tree (read from the L-int dump,
-                # not from the stored height fields) obeys the same bound (theorem height_logarithmic)
-                secs = l.split(' | ')
-                if len(secs) >= 3 and not secs[2].startswith('#'):
-                    d = tree_depth(secs[2].split(' ')[0].split(','))
-                    if 2 * d > bound(n):
-                        fails.append((i, k, 'tree of %d entries is %d levels deep, bound is %d' % (n, d, bound(n) // 2)))
+                # same result and contents, but another tree / other Item fields than the model predicts
+                for ml, il in zip(lm[1][i], impl_obs[i]):
+                    ms, is_ = ml.split(' | '), il.split(' | ')
+                    if ml != il and len(ms) >= 3 and len(is_) >= 3 and ms[:2] == is_[:2]:
+                        self.corr_flavours.add('multimap' if (c and c[0].startswith('@') and 'multimap' in c[0][1:].split()) else 'map')
                         break
+            if fails:
+                self.prop_failed = True
         return fails
+
+    # ---- running the implementation: bounded work on a thoroughly broken tree -----------------------------------
+    _last_model = None
+    crash_total = 0
+    timeout_total = 0
+
+    def run_model(self, cases, tag='model'):
+        res = Check.run_model(self, cases, tag)
+        if tag.startswith('model_'):
+            self._last_model = (cases, res)
+        return res
+
+    def run_impl(self, cases, tag='impl'):
+        # chunks of 100 cases; every crash / watchdog timeout restarts the harness.  After 150 crashes or 30 timeouts
+        # (30 x per_case_timeout = 90 s) over the whole run the remaining cases are not run (`! notrun`, dropped by
+        # the framework): the failing inputs are there by then, and a tree on which everything crashes or hangs ends
+        # the check within minutes.
+        res, crashes = [], {}
+        bounded = not (tag.startswith('shr_') or tag.startswith('rel_'))
+        for off in range(0, len(cases), 100):
+            chunk = cases[off:off + 100]
+            if bounded and (self.crash_total >= 150 or self.timeout_total >= 30):
+                res += [['! notrun'] for _ in chunk]
+                continue
+            r, c = vf.run_exe_on_cases(self.exes['impl'], chunk, os.path.join(vf.BUILD, self.id, 'run'), tag, is_impl=True,
+                                       per_case_timeout=self.per_case_timeout)
+            res += r
+            for k, v in c.items():
+                crashes[off + k] = v
+                if bounded:
+                    if v[0] == 'timeout':
+                        self.timeout_total += 1
+                    else:
+                        self.crash_total += 1
+        if bounded and (self.crash_total >= 150 or self.timeout_total >= 30):
+            vf.log('[C01] %d crashes, %d timeouts so far: remaining cases are not run' % (self.crash_total, self.timeout_total))
+        return res, crashes
+
+    _shrink_deadline = None
+
+    def shrink(self, case, pred, budget=400):
+        # on a tree where the cases hang, every shrinking step costs a watchdog timeout: all shrinking of one run
+        # together gets 300 s, after that the failing inputs are reported as they are
+        if self._shrink_deadline is None:
+            self._shrink_deadline = time.time() + 300
+        return Check.shrink(self, case, lambda c: time.time() < self._shrink_deadline and pred(c), budget)
+
+    # ---- adversarial search for a history that breaks the depth / cost bound -------------------------------------
+    @staticmethod
+    def search_lines(obs):
+        """(line index, n, depth, weighted imbalance, shape hash, comparisons or None) of the compact lines the harness
+        prints in `search` mode"""
+        out = []
+        for k, l in enumerate(obs):
+            secs = l.split(' | ')
+            if len(secs) != 2:
+                continue
+            t = secs[1].split(' ')
+            try:
+                n, d, bad, h = int(t[0]), int(t[1]), int(t[2]), t[3]
+            except (ValueError, IndexError):
+                continue
+            m = re.search(r' c=(\d+)$', secs[0])
+            out.append((k, n, d, bad, h, int(m.group(1)) if m else None))
+        return out
+
+    @staticmethod
+    def search_keys(ops):
+        ks = set()
+        for l in ops[1:]:
+            t = l.split()
+            if t[0] == 'ins':
+                ks.add(int(t[1]))
+            elif t[0] == 'remk':
+                ks.discard(int(t[1]))
+        return ks
+
+    def search_worker(self, w, seed, fl, deadline, stop, found):
+        """One explorer.  It keeps an archive of histories by what they reach - cell = (entries n, real depth d,
+        imbalance) - started from sparsest trees (built without a rotation) and random trees; again and again it takes
+        histories from the cells closest to the bound (score = d - 1.4405*log2(n+2) + a small reward for nodes whose
+        subtrees differ by two or more levels, weighted by their height: a code that loses balance shows such defects
+        long before the depth exceeds the bound), extends them by every single removal (the best cells) or by a few
+        random removals / inserts, runs the implementation alone (`search` mode of the harness: one short line per
+        operation) and files every state passed.  No progress for 30 s: start again from scratch."""
+        rng = __import__('random').Random(seed)
+        head = '@%s search' % fl
+        W, CAP, Q, P = 0.02, 40, 3, 0.15
+        crashes = 0
+        def score(cell):
+            n, d, bad = cell
+            return d - 1.4405 * math.log2(n + 2) + W * min(bad, CAP)
+        while time.time() < deadline and not stop[0]:
+            arch, expanded = {}, set()
+            batch = []
+            for h in (4, 5, 6, 7):
+                for lean in ('l', 'r', 'x', 'x'):
+                    order, _ = shape_level_order(avl_shape(h, rng, 0.0, lean))
+                    batch.append([head] + ['ins %d %d' % (k, i + 1) for i, k in enumerate(order)])
+            for _ in range(8):
+                keys = list(range(100))
+                rng.shuffle(keys)
+                batch.append([head] + ['ins %d %d' % (k, i + 1) for i, k in enumerate(keys[:rng.randrange(8, 40)])])
+            best, t_best = -1e9, time.time()
+            while time.time() < deadline and not stop[0] and time.time() - t_best < 30:
+                obs, cr = vf.run_exe_on_cases(self.exes['impl'], batch, os.path.join(vf.BUILD, self.id, 'run'), 'search_w%d' % w,
+                                              is_impl=True, per_case_timeout=self.per_case_timeout)
+                crashes += len(cr)
+                if crashes > 30:
+                    return
+                for c, o in zip(batch, obs):
+                    for (k, n, d, bad, h, cmps) in self.search_lines(o):
+                        if 2 * d > bound(n) or (cmps is not None and cmps > bound(n)):
+                            found.append(['@' + fl] + c[1:k + 2])
+                            stop[0] = True
+                            return
+                        if n < 4:
+                            continue
+                        cell = (n, d, bad // Q * Q)
+                        lst = arch.setdefault(cell, [])
+                        if any(h == x[1] for x in lst):
+                            continue
+                        if len(lst) < 6:
+                            lst.append((c[:k + 2], h))
+                        elif rng.random() < 0.3:
+                            lst[rng.randrange(6)] = (c[:k + 2], h)
+                cells = sorted(arch.keys(), key=lambda c: -score(c))
+                if cells and score(cells[0]) > best + 1e-9:
+                    best, t_best = score(cells[0]), time.time()
+                batch = []
+                nexp = 0
+                for cell in cells[:12]:
+                    for ops, h in arch[cell]:
+                        if h in expanded or nexp >= 4:
+                            continue
+                        expanded.add(h)
+                        nexp += 1
+                        ks = self.search_keys(ops)
+                        for k in sorted(ks):
+                            batch.append(list(ops) + ['remk %d' % k])
+                        top = max(ks) + 4 if ks else 10
+                        for _ in range(10):
+                            k = rng.randrange(-2, top)
+                            if k not in ks:
+                                batch.append(list(ops) + ['ins %d 7' % k])
+                for _ in range(100):
+                    i = 0
+                    while i < len(cells) - 1 and rng.random() > P:
+                        i += 1
+                    ops, _h = rng.choice(arch[cells[i]])
+                    ks = self.search_keys(ops)
+                    ops = list(ops)
+                    top = max(ks) + 4 if ks else 10
+                    for _ in range(rng.choice([1, 1, 2, 2, 3, 4, 6, 8])):
+                        if ks and rng.random() < 0.65:
+                            k = rng.choice(sorted(ks))
+                            ops.append('remk %d' % k)
+                            ks.discard(k)
+                        else:
+                            k = rng.randrange(-2, top)
+                            if k in ks:
+                                continue
+                            ops.append('ins %d 7' % k)
+                            ks.add(k)
+                    if len(ops) <= 200:
+                        batch.append(ops)
+
+    def depth_search(self, rng, flavours, budget_s, workers=3):
+        """Adversarial search for a history on which the implementation's tree gets deeper, or a find more expensive,
+        than the bound allows (see search_worker; `workers` independent explorers in parallel).  Runs when a stream
+        showed implementation != model in the Item fields without a property failure: a re-balancing slip shows there
+        long before the depth bound breaks on random input.  A candidate is confirmed by the ordinary property oracle.
+        Returns [(case, reason)]."""
+        from concurrent.futures import ThreadPoolExecutor
+        t0 = time.time()
+        out = []
+        share = budget_s / max(1, len(flavours))
+        for fl in flavours:
+            t1 = time.time()
+            stop, found = [False], []
+            with ThreadPoolExecutor(max_workers=workers) as ex:
+                futs = [ex.submit(self.search_worker, w, rng.randrange(1 << 30), fl, t1 + share, stop, found) for w in range(workers)]
+                for f in futs:
+                    f.result()
+            for cand in found:
+                pf = self.property_fails(cand)
+                if pf:
+                    out.append((cand, pf[2]))
+            vf.log('[C01] depth search (%s, %d explorers): %s after %.0fs' % (fl, workers, 'FOUND' if out else 'nothing found', time.time() - t1))
+            if out:
+                break
+        return out
+
+    corr_flavours = set()
+    prop_failed = False
+
+    def extra_checks(self, tier, rng, ctx):
+        self.corr_flavours = set(self.corr_flavours)
+        if ctx['violations'] or self.prop_failed:
+            return
+        flavours = sorted(self.corr_flavours)
+        budget = 0
+        if flavours:
+            budget = 420 if tier == 'thorough' else 150
+        elif tier == 'thorough':
+            flavours, budget = ['map', 'multimap'], 40
+        if not flavours:
+            return
+        found = self.depth_search(rng, flavours, budget)
+        if not found:
+            return
+        found.sort(key=lambda x: len(x[0]))
+        case, reason = found[0]
+        pred = lambda c: self.property_fails(c) is not None
+        small = self.shrink(case, pred, budget=300)
+        r2 = self.property_fails(small)
+        p = self.write_replay('failing-input', 'property oracle on implementation observations (depth search after a model/implementation difference)',
+                              small, {'reason': r2[2] if r2 else reason, 'original_length': len(case)})
+        ctx['violations'].append((p, ''))
 
     def streams(self, tier, rng):
         thorough = tier == 'thorough'
@@ -672,6 +1071,9 @@ class C01(Check):
                     for how in (('key', 'iter', 'ends') if (thorough or N <= 31) else (rng.choice(['key', 'iter', 'ends']),)):
                         cases.append(drain_case(rng, multi, N, pattern, how))
         out.append(Stream('drain', cases))
+        # sparsest AVL trees (Fibonacci trees and near misses) built without a rotation, then removals / inserts where
+        # re-balancing is triggered: only there the depth bound is tight
+        out.append(Stream('sparse', sparse_cases(rng, thorough)))
         return out
 
 
